@@ -344,6 +344,11 @@ add("C14",
 JAL = "dateparser/calendars/jalali_parser.py"
 CAL = "dateparser/calendars/__init__.py"
 add("C15",
+    V("hijri-range-guard-half-open", "C15", [("dateparser/calendars/hijri_parser.py", "from hijridate import Gregorian, Hijri\n", "from hijridate import Gregorian, Hijri\nfrom hijridate.ummalqura import HIJRI_RANGE\n"),
+        ("dateparser/calendars/hijri_parser.py", "        g = Hijri(year=year, month=month, day=day, validate=False).to_gregorian()\n", "        if not HIJRI_RANGE[0] <= (year, month, day) < HIJRI_RANGE[1]:\n            raise ValueError(\"date outside of the supported Hijri range\")\n        g = Hijri(year=year, month=month, day=day, validate=False).to_gregorian()\n")], "fire", "C15.R5",
+      note="seeded change C15-3: 30 Dhu al-Hijjah 1500 is rejected"),
+    V("twin-hijri-range-guard-inclusive", "C15", [("dateparser/calendars/hijri_parser.py", "from hijridate import Gregorian, Hijri\n", "from hijridate import Gregorian, Hijri\nfrom hijridate.ummalqura import HIJRI_RANGE\n"),
+        ("dateparser/calendars/hijri_parser.py", "        g = Hijri(year=year, month=month, day=day, validate=False).to_gregorian()\n", "        if not HIJRI_RANGE[0] <= (year, month, day) <= HIJRI_RANGE[1]:\n            raise ValueError(\"date outside of the supported Hijri range\")\n        g = Hijri(year=year, month=month, day=day, validate=False).to_gregorian()\n")], "silent"),
     V("day-bound-parsed-month-default-year", "C15", [(CAL, "        year, month, day = self.default_year, self.default_month, self.default_day\n        token_len = len(token)\n",
                                                       "        year, month, day = self.default_year, self.default_month, self.default_day\n        if directive == \"%d\" and self.month:\n            month = self.month\n        token_len = len(token)\n")], "fire", "C15.R4",
       note="seeded change C15-1: Esfand 30 of a leap year is rejected when the month precedes the day"),
